@@ -492,6 +492,8 @@ def evaluate__format_integer(self: XPathFunction, context: ta.ContextType = None
     lang = self.get_argument(context, index=2, cls=str)
     if value is None:
         return ''
+    elif not isinstance(value, int):
+        raise self.error('XPTY0004', 'the first argument must be an xs:integer')
 
     if ';' not in picture:
         fmt_token, fmt_modifier = picture, ''
@@ -508,6 +510,8 @@ def evaluate__format_integer(self: XPathFunction, context: ta.ContextType = None
             result = int_to_alphabetic(value, lang)
         elif fmt_token == 'A':
             result = int_to_alphabetic(value, lang).upper()
+        elif abs(value) > 999999 and fmt_token in 'iI':
+            result = str(value)  # out of the range of roman numerals: decimal fallback
         elif fmt_token == 'i':
             result = int_to_roman(value).lower()
         elif fmt_token == 'I':
